@@ -133,6 +133,18 @@ TEXTS = {
         "level_text": 'Proved: the specification tables the lookups index into are in range and of bounded nesting (regenerated obligations); tokenising is total; every modelled operation is a total function, on error with the world unchanged; a lock program that passes runsAlone never blocks a single thread. `Never panics / blocks` of the real code is an oracle matter (catch_unwind and watchdog around every request of every history): partial.',
         "level_note": "Trusted: Lean kernel; axioms propext, Classical.choice, Quot.sound. " + 'Known finding c12:move-to-ancestor-parent-locked. Stack depth outside the model.',
     },
+    "C07": {
+        "design_ref": 'DESIGN.md §8 C07',
+        "technique": 'Lean 4 theorems about an executable model of calc_element_insert_range and element creation; differential run of the model against the library (range / valid / create-at requests); direct property oracle on the library (scenario edits)',
+        "level_text": 'Proved for all specifications and contents: creation at a position succeeds exactly when the position lies in the reported range; for a parent whose children and the new element lie in one SEQUENCE group the range is exactly the set of positions that keep the children in specification order, and without repetition the request is refused exactly when the element is present; BAG/MIXED parents accept every position, CHARACTERS parents none. CHOICE and nested groups, value spaces and the lenient reload are decided by correspondence and by the oracle on the library: partial.',
+        "level_note": "Trusted: Lean kernel; axioms propext, Classical.choice, Quot.sound. " + 'Ten families of genuine violations found by the oracle are listed as known findings (copy/move keep the source type, cross-version copies, move inside one parent, sort order per version, set_character_data on named mixed content).',
+    },
+    "C17": {
+        "design_ref": 'DESIGN.md §8 C17',
+        "technique": 'Lean 4 theorems about an executable model of check_version_compatibility / set_version; differential run of the model against the library (compat / setver requests with full error lists and masks); direct property oracle on the library (scenario edits: strict reload of the relabelled text)',
+        "level_text": 'Proved for all trees, specifications and target versions: the exact meaning of "lists nothing" as a recursive condition on version masks; the mask contains the target version if nothing is listed, every listed entry either excludes the target by its own mask (and then clears it in the result) or is a wrong-kind value; set_version is refused exactly when something is listed, a refusal changes nothing, success changes only the version of that file. Equivalence with strict validation of the relabelled text is decided on the library by the oracle: partial.',
+        "level_note": "Trusted: Lean kernel; axioms propext, Classical.choice, Quot.sound. " + 'Three families of genuine violations (attribute / SHORT-NAME / pattern differences between versions not reported) are known findings.',
+    },
     "C13": {
         "design_ref": 'DESIGN.md §8 C13',
         "technique": 'Lean 4 theorems about an executable model of the element tree / file sets / copy / sort and its operations; differential run of the model against the library on operation histories with full state dumps; direct property oracle on the library',
